@@ -278,8 +278,9 @@ def finish(prop, tier, seed, reg, repo, results, extra, t0):
     ev = {"property_id": prop, "tier": tier, "seed": seed, "level": level, "coverage": cov,
           "assumptions": ENCODING_ASSUMPTIONS + prop_notes(reg, prop), "wall_s": round(time.time() - t0, 2),
           "violations": len(violations) + len(bounded_fail)}
-    os.makedirs(VERIF / "evidence", exist_ok=True)
-    json.dump(ev, open(VERIF / "evidence" / f"{prop}.json", "w"), indent=1, default=str)
+    evdir = Path(os.environ["PYVC_OUT"]) / "evidence" if os.environ.get("PYVC_OUT") else VERIF / "evidence"
+    os.makedirs(evdir, exist_ok=True)
+    json.dump(ev, open(evdir / f"{prop}.json", "w"), indent=1, default=str)
     if os.environ.get("PYVC_WRITE_LOCK") == "1":
         lock[prop] = sorted(present)
         json.dump(lock, open(lp, "w"), indent=1)
